@@ -23,6 +23,7 @@ META = {
     "not_decided": "equality with a sequence model over operation histories",
     "assumptions": ["element relocation by byte copy is valid for the element types used (no self-pointers; checked under C16)"],
 }
+META["explanation"] += " " + '(SB-bytes) Memory::Copy / SetToZero receive a byte count: an element count times sizeof(element) (14 call sites).'
 META["explanation"] += " " + 'Also: an element reference handed to a container method may refer to an element of that container (a += a[0]) and a same-class argument taken by const reference may be the container itself (h += h) -- neither is used after a call that may release the storage; no register-wide access sits outside the counted vector loop of Copy/SetToZero (a literal offset fits one register width only); (NARROW-unit) no code unit is narrowed below 32 bits in the string utilities.'
 
 
